@@ -176,7 +176,13 @@ def run_case(i: int) -> Dict[str, Any]:
                 mismatches.append(dict(values=rctx.used, why="pinned run aborted, native did not"))
                 continue
             validated += 1
-            if _plain(pr["obs"]) != _plain(nat_obs) or pr["verdict"] != nat_v:
+            # obligations that exist only in the native run (e.g. "the model of the environment agrees with the real one")
+            native_only_failed = [kk for kk, ok in nat_v.items() if kk not in pr["verdict"] and not ok and not kk.startswith("exception:")]
+            if native_only_failed:
+                mismatches.append(dict(values=rctx.used, why="native-only obligation failed: %s" % native_only_failed, details=_plain(getattr(rctx, "details", None))))
+                continue
+            common = set(pr["verdict"]) & set(nat_v)
+            if _plain(pr["obs"]) != _plain(nat_obs) or {kk: pr["verdict"][kk] for kk in common} != {kk: nat_v[kk] for kk in common} or ((set(pr["verdict"]) ^ set(nat_v)) and not getattr(case, "native_has_extra_obligations", False) and not case.meta.get("native_has_extra_obligations")):
                 mismatches.append(
                     dict(values=rctx.used, native=[_plain(nat_obs), nat_v], pinned=[_plain(pr["obs"]), pr["verdict"]])
                 )
